@@ -32,7 +32,15 @@ func init() {
 		"(*sync.Once).Do":         onceDo,
 		"(*sync.WaitGroup).Add":   nop,
 		"(*sync.WaitGroup).Done":  nop,
-		"(*sync.WaitGroup).Wait":  nop,
+		"(*sync.WaitGroup).Wait": func(x *Exec, st *State, a []Val, s ssa.Instruction) []Val {
+			// observable in traces: the order of "wait for the goroutines" against "close what they use" matters
+			st.addEvent(Event{Kind: "wg_wait", Args: a})
+			return nil
+		},
+		"(*" + pkgHWS + ".scheduler).Close": func(x *Exec, st *State, a []Val, s ssa.Instruction) []Val {
+			st.addEvent(Event{Kind: "scheduler_close", Args: a})
+			return nil
+		},
 
 		// ---- time ----
 		"time.Now": func(x *Exec, st *State, a []Val, s ssa.Instruction) []Val {
